@@ -1,5 +1,5 @@
 """C01 - civil calendar facts are exactly proleptic Gregorian (narrow)."""
-from ..rules_r5 import clamp_guard
+from ..rules_r5 import clamp_guard, day_succ
 from ..rules_shape import floor_a, const_agree, month_table
 from ..e5 import run_e5
 from ..rules_contract import run_contracts
@@ -12,6 +12,7 @@ def run(ctx, rep):
     ym_pair(rep, prog, floor=15)
     year_fact(rep, prog)
     clamp_guard(rep, prog)
+    day_succ(rep, prog)
     rep.notes.append("Does not decide that the Neri-Schneider arithmetic computes Gregorian values.")
     floor_a(ctx, rep)
     const_agree(rep, prog)
